@@ -749,11 +749,21 @@ class Evaluator:
         return ("nullptr",)
 
     def e_zeroinit(self, e, frame):
-        t = self.F.T(e["t"])
+        return self.zero_value(self.F.T(e["t"]))
+
+    def zero_value(self, t):
+        """Value-initialisation of a scalar, a built-in array or a std::array of such ([dcl.init]/8: zero-initialised)."""
+        t = strip_cvref(t)
         if is_float_type(t):
             return ZERO
         if is_int_type(t):
             return 0
+        m = re.match(r"(.+)\[(\d+)\]$", t)
+        if m:
+            return Arr([self.zero_value(m.group(1)) for _ in range(int(m.group(2)))])
+        m = re.match(r"std::array<(.+), (\d+)>$", t)
+        if m:
+            return Obj(t, {"_M_elems": Arr([self.zero_value(m.group(1)) for _ in range(int(m.group(2)))])})
         raise Inconclusive("value-initialisation of " + t)
 
     def e_sizeof(self, e, frame):
@@ -1366,6 +1376,16 @@ class Evaluator:
                 op = m.group(1)
                 return {"==": eq, "!=": lambda: b_not(eq()), "<": lambda: lt(xs, ys), ">": lambda: lt(ys, xs),
                         "<=": lambda: b_not(lt(ys, xs)), ">=": lambda: b_not(lt(xs, ys))}[op]()
+        # ---- std::get<I>(std::array)
+        m = re.match(r"std::get<(\d+)U?L?,", name)
+        if m and len(args) == 1 and this_lv is None:
+            a0 = args[0]
+            v0 = val(0)
+            if isinstance(v0, Obj) and v0.type.startswith("std::array<"):
+                idx = int(m.group(1))
+                if isinstance(a0, LV):
+                    return LV(a0.loc, a0.path + ("_M_elems", idx))
+                return self._child(v0.f["_M_elems"], idx)
         # ---- std::array
         ptype = self.F.T(f["parent"]) if "parent" in f else ""
         if ptype.startswith("std::array<"):
